@@ -309,8 +309,8 @@ PROPS = {
                     "to the test size, min <= mean <= max; non-trivial = simulation completed"},
     "C17": {"gen": g_c17, "fields": ("out", "arms", "cold", "cfexp", "stats", "status", "nhist"), "functional": False, "n": (150, 2000),
             "relations": [("rejected_call_changes_nothing", REL.gen_c17, REL.run_c17, (400, 8000))],
-            "rule": "22 classes of invalid call (length mismatch, non-finite / non-binary rewards, contexts missing / superfluous / wrong row count / wrong width, "
-                    "duplicate / None / NaN / Inf / unknown arms, four bad warm_start arguments, too few rows for k-means, wrong container types, predict without contexts, 1-D contexts, a query of another width, an unhashable arm, removal of the only arm) "
+            "rule": "25 classes of invalid call (length mismatch, non-finite / non-binary rewards, contexts missing / superfluous / wrong row count / wrong width, "
+                    "duplicate / None / NaN / Inf / unknown arms, four bad warm_start arguments, too few rows for k-means, wrong container types, predict without contexts, 1-D contexts, a query of another width, an unhashable arm, removal of the only arm, decisions as a column, string contexts in training and in a query) "
                     "placed at a random position of a random valid history of any policy combination, followed by the rest of the history plus partial_fit and queries on the bandit "
                     "and on a deep copy taken before the call; non-trivial = the call was rejected"},
     "C20": {"gen": g_c20, "fields": ("out", "arms"), "functional": False, "n": (150, 2000),
